@@ -24,5 +24,10 @@ ROWS = {
   "property-based testing (rapid) against a reference model: float64 DCT-II by definition of an independently computed luminance, threshold / upper-set oracle with a stated margin",
   "Generated images of the exact size (four pixel formats, seven content classes, origin and sub-image forms with hostile surroundings) are hashed by the primary and alternative implementations; the bits are checked against reference coefficients: above the upper median + tau set, below the median - tau clear, one threshold separates, repeated calls agree, primary vs alternative and sub-image vs origin form differ only within 2 tau of the median; wrong sizes (incl. the shapes the old guard formula let through) and nil must give an error and a zero hash with poisoned pools; distance laws on random triples.",
   "Trusted: internal/imgen (image construction and reference luminance), the margin constants tau = 4e-5 / 2e-4 x ||lum||_1 (fixed, from C18's measured kernel error). Opaque RGBA/NRGBA only; YCbCr 4:4:4 only (other ratios: C20)."),
+
+ "C20": ("exploration",
+  "property-based testing (rapid): reference formula per pixel, guard words, metamorphic read-containment, differential hash vs packed 4:4:4 form; crash attribution",
+  "Generated YCbCr images of the accepted sizes over all six subsampling ratios, origins, parent margins (stride > width) and destination alignments go through every conversion entry (platform-selected, assembly wrapper, portable, ImageToGray, float64); oracles: every pixel within 2.0 of the portable formula evaluated at the pixel's plane offsets, guard words around the destination intact, destination bit-identical when everything outside the visible pixels changes, hashes equal to the packed 4:4:4 origin form up to threshold bits; a fatal fault is attributed to the case in flight and reported as a violation.",
+  "Trusted: image.YCbCr.YOffset/COffset of the standard library, internal/imgen reference luminance, hooks in imagehash/transforms32. Subsampled images at negative coordinates are excluded (not representable by image.YCbCr itself). Read containment is observed only through its effect on the result or a fault."),
 }
 NOT_APPLICABLE = {}
